@@ -74,6 +74,7 @@ func init() {
 		"(*sync.Mutex).Lock":                       inLock,
 		"(*sync.Mutex).Unlock":                     inUnlock,
 		"(*sync.Once).Do":                          inOnceDo,
+		"strings.ToUpper":                          inToUpper,
 		"(*sync.Map).Load":                         inSyncMapLoad,
 		"(*sync.Map).Store":                        inSyncMapStore,
 		"(*sync.Map).LoadOrStore":                  inSyncMapLoadOrStore,
@@ -826,4 +827,129 @@ func inSyncMapLoadOrStore(m *Machine, fr *frame, fn *ssa.Function, a []Value) Va
 func inSyncMapDelete(m *Machine, fr *frame, fn *ssa.Function, a []Value) Value {
 	m.mapDelete(m.syncMap(a[0]), a[1])
 	return nil
+}
+
+// ToUpper: exact for ASCII bytes (the mirror image of ToLower above).
+func inToUpper(m *Machine, fr *frame, fn *ssa.Function, a []Value) Value {
+	s := a[0].(Str)
+	if s.isConc() {
+		return Str{S: strings.ToUpper(s.S)}
+	}
+	out := Str{S: s.S, Sym: make([]*Term, len(s.S))}
+	bs := []byte(s.S)
+	for i := range bs {
+		if s.Sym[i] == nil {
+			if bs[i] >= 0x80 {
+				unsupported("strings.ToUpper on non-ASCII concrete byte mixed with symbolic bytes")
+			}
+			if bs[i] >= 'a' && bs[i] <= 'z' {
+				bs[i] -= 32
+			}
+			continue
+		}
+		b := s.Sym[i]
+		if m.feasible(tBin("bvuge", 0, b, bvConst(0x80, 8))) {
+			unsupported("strings.ToUpper on a symbolic byte that may be >= 0x80 (harness must assume ASCII)")
+		}
+		lo := tAnd(tBin("bvuge", 0, b, bvConst('a', 8)), tBin("bvule", 0, b, bvConst('z', 8)))
+		out.Sym[i] = tIte(lo, tBin("bvsub", 8, b, bvConst(32, 8)), b)
+		bs[i] = '?'
+	}
+	out.S = string(bs)
+	return out
+}
+
+// ---- sync/atomic: sequentially consistent cells; in threaded runs every operation is a
+// scheduling point and carries release/acquire happens-before edges ----
+
+func atomicCell(p Value) *Value {
+	ptr, ok := p.(*Value)
+	if !ok || ptr == nil {
+		unsupported("atomic operation on %T", p)
+	}
+	// atomic.Int32 & co are structs whose last field holds the value; plain *int32 cells are used directly
+	if st, ok := (*ptr).(Struct); ok {
+		return &st[len(st)-1]
+	}
+	return ptr
+}
+
+func (m *Machine) atomicSync(cell *Value, write bool) {
+	p := m.par
+	if p == nil || p.cur == nil {
+		return
+	}
+	t := p.cur
+	m.yield(nil)
+	vc := p.pools[cell]
+	if vc == nil {
+		vc = vclock{}
+		p.pools[cell] = vc
+	}
+	t.vc.join(vc)
+	if write {
+		vc.join(t.vc)
+		t.vc[t.id]++
+	}
+}
+
+func inAtomicLoad(m *Machine, fr *frame, fn *ssa.Function, a []Value) Value {
+	c := atomicCell(a[0])
+	m.atomicSync(c, false)
+	return copyVal(*c)
+}
+
+func inAtomicStore(m *Machine, fr *frame, fn *ssa.Function, a []Value) Value {
+	c := atomicCell(a[0])
+	m.atomicSync(c, true)
+	*c = copyVal(a[1])
+	return nil
+}
+
+func inAtomicSwap(m *Machine, fr *frame, fn *ssa.Function, a []Value) Value {
+	c := atomicCell(a[0])
+	m.atomicSync(c, true)
+	old := copyVal(*c)
+	*c = copyVal(a[1])
+	return old
+}
+
+func inAtomicAdd(m *Machine, fr *frame, fn *ssa.Function, a []Value) Value {
+	c := atomicCell(a[0])
+	m.atomicSync(c, true)
+	t := fn.Signature.Results().At(0).Type()
+	*c = m.binop(fr, nil, token.ADD, t, *c, a[1])
+	return copyVal(*c)
+}
+
+func inAtomicCAS(m *Machine, fr *frame, fn *ssa.Function, a []Value) Value {
+	c := atomicCell(a[0])
+	m.atomicSync(c, true)
+	if m.branchIn(fr, m.equal(*c, a[1])) {
+		*c = copyVal(a[2])
+		return Bool{B: true}
+	}
+	return Bool{B: false}
+}
+
+func init() {
+	for _, t := range []string{"Int32", "Int64", "Uint32", "Uint64", "Bool", "Uintptr", "Pointer[T]", "Value"} {
+		recv := "(*sync/atomic." + t + ")."
+		intrinsics[recv+"Load"] = inAtomicLoad
+		intrinsics[recv+"Store"] = inAtomicStore
+		intrinsics[recv+"Swap"] = inAtomicSwap
+		intrinsics[recv+"CompareAndSwap"] = inAtomicCAS
+		if t != "Bool" && t != "Pointer[T]" && t != "Value" {
+			intrinsics[recv+"Add"] = inAtomicAdd
+		}
+	}
+	for _, t := range []string{"Int32", "Int64", "Uint32", "Uint64", "Uintptr", "Pointer"} {
+		intrinsics["sync/atomic.Load"+t] = inAtomicLoad
+		intrinsics["sync/atomic.Store"+t] = inAtomicStore
+		intrinsics["sync/atomic.Swap"+t] = inAtomicSwap
+		intrinsics["sync/atomic.CompareAndSwap"+t] = inAtomicCAS
+		if t != "Pointer" {
+			intrinsics["sync/atomic.Add"+t] = inAtomicAdd
+		}
+	}
 }
